@@ -560,3 +560,45 @@ def check_filtered_index(ctx, functions, rule='A10e'):
                                      f'`{name}` is a filtered list and may be empty: `{name}[{k}]` is evaluated only '
                                      f'where a test of its length excludes lengths below {need}')
     return n
+
+
+# ---------------------------------------------------------------------- A10g: reductions over degree-override lists
+def check_override_reductions(ctx, rule='A10g', module='adsg_core.optimization.assign_enc.matrix'):
+    """The per-scenario degree lists of an existence pattern (`*_n_conn_override` maps) may be EMPTY: a connector
+    group whose present members need more connections than the matrix allows has no admissible number of
+    connections in that scenario (ConnectionChoiceNode.get_assignment_encoding_args builds `range(deg_min,
+    deg_max+1)`).  A `max()` / `min()` over such a list therefore needs a non-emptiness filter or `default=`."""
+    prog = ctx.prog
+    n = 0
+    for fn in prog.all_functions():
+        if fn.module.name != module:
+            continue
+        for comp in [c for c in ast.walk(fn.node) if isinstance(c, (ast.ListComp, ast.GeneratorExp, ast.SetComp))]:
+            for g in comp.generators:
+                it = norm(g.iter)
+                if 'override' not in it or not (it.endswith('.values()') or it.endswith('.items()')):
+                    continue
+                tnames = [x.id for x in ast.walk(g.target) if isinstance(x, ast.Name)]
+                var = tnames[-1] if tnames else None
+                if var is None:
+                    continue
+                for c in ast.walk(comp.elt):
+                    if isinstance(c, ast.Call) and isinstance(c.func, ast.Name) and c.func.id in ('max', 'min') and \
+                            c.args and norm(c.args[0]) == var:
+                        has_default = any(k.arg == 'default' for k in c.keywords)
+                        filt = any(_nonempty_filter(f, var) for f in g.ifs)
+                        n += 1
+                        ctx.touch(fn)
+                        ctx.ob(rule, fkey(fn, rule, f'{c.func.id}({var}) over {it}'), has_default or filt,
+                               f'{fn.module.relpath}:{c.lineno}',
+                               f'`{c.func.id}({var})` over the degree lists of an existence pattern tolerates an empty '
+                               f'list (non-emptiness filter or default=)',
+                               'filtered / defaulted' if (has_default or filt) else
+                               f'an empty degree list (infeasible scenario of a connector group) raises ValueError here')
+    return n
+
+
+def _nonempty_filter(test, var):
+    from . import intcmp
+    r = intcmp.emptiness(test, lambda e: isinstance(e, ast.Name) and e.id == var)
+    return r == 'nonempty'
